@@ -17,7 +17,7 @@ import (
 type aliasCase struct {
 	t1, t2 ityp
 	v      *big.Int // value of the FIRST constant (representable in t1)
-	sum    bool     // second constant is the folded sum (v-1)+1 resp. written directly
+	sum    bool     // second constant is the folded `v | 0` resp. written directly
 }
 
 // mpaValue is the number the compiler prints for the typed constant t(v)
@@ -54,7 +54,9 @@ func runAlias(o *hxlib.Out, c aliasCase) {
 	}
 	second = constExpr(c.t2, v2, "cast")
 	if c.sum && v2.Sign() > 0 {
-		second = fmt.Sprintf("(%s + %s)", constExpr(c.t2, new(big.Int).Sub(v2, one), "cast"), constExpr(c.t2, one, "cast"))
+		// a FOLDED constant of the same value; `|` is exact for non-negative operands
+		// (Props/C12.lean C12_text_wrap_nonneg), unlike `+` (finding C12-add-masked-to-operand-size)
+		second = fmt.Sprintf("(%s | %s)", constExpr(c.t2, v2, "cast"), constExpr(c.t2, big.NewInt(0), "cast"))
 	}
 	first := constExpr(c.t1, c.v, "cast")
 	cprog := fmt.Sprintf("package main\n\nfunc main(y %s, x %s) (%s, %s) {\n\treturn %s + y, %s + x\n}\n",
